@@ -1,1 +1,4 @@
 import Qx.Driver.Proto
+import Qx.Model.C13Task
+import Qx.Proofs.C13
+import Qx.Props.C13
